@@ -17,7 +17,8 @@ RULE = ("(a) pairs of consistently typed feature structures of depth <=2 over fe
         "(<=3 categories, <=2 features, domain {x,y}, agreement variables, equal skeletons, epsilon productions, "
         "ambiguity, left recursion; text and object API): contains(w) for all words <=%d compared with membership in "
         "the reference grounding, feature-free grammars also with the plain CFG semantics. "
-        "Non-trivial: structures share >=1 path / grammar has a non-empty language; distinct = case hash." % N)
+        "Non-trivial: structures share >=1 path / grammar has a non-empty language; distinct = case hash." % N +
+        ' Later additions: structure-valued agreement features, tied next to independent analyses of one constituent, alternatives on one line, the (n) reference syntax and VAR markers; a second reference grammar built from the case itself judges what the library read; production count up to variable renaming.')
 ASSUMPTIONS = ["feature lists of body symbols are rendered without blanks, as the text parser requires",
                "atom-against-complex conflicts (inconsistent typing) are not generated"]
 TIERS = {
